@@ -257,6 +257,46 @@ def replay_graph(ctx, pid, consts, rep, max_walks=None, label="graph"):
     return replayed
 
 
+def replay_simulated(ctx, pid, consts, rep, num, depth=60):
+    """Behaviours of a larger instance sampled by TLC's simulator (faults late: Sim_LateFaults), replayed."""
+    from harness.replay import pool as rp
+    cfg = tlc.write_cfg(os.path.join(ctx.scratch, "pool_sim.cfg"), constants=consts, deadlock=False,
+                        action_constraints=["Sim_LateFaults"])
+    res, behs = tlc.simulate("Pool", cfg, ctx.scratch, num=num, depth=depth, seed=ctx.seed, timeout=1500)
+    if not behs:
+        raise tlc.MachineryError("TLC -simulate produced no behaviour: %s" % res.error)
+    clean = 0
+    for b in behs:
+        div, met = rp.replay(consts, b)
+        acts = _acts(b)
+        upto = div["step"] if div else len(b) - 1
+        ctx.nontrivial(tuple((a["name"], a["r"], a["c"], a["f"]) for a in acts[:upto]))
+        for m in met:
+            rep.report("C12", m["signature"],
+                       "%s. Replay: after %s the specification (what C12 requires) and the code differ: %s"
+                       % (WHAT[m["signature"]], m["action"]["name"], _jsonable_div(m)["diff"]),
+                       {"kind": "walk", "constants": _jc(consts), "actions": acts[:m["step"] - 1],
+                        "repairs": {str(x["step"]): {"signature": x["signature"], "info": x["repair"]} for x in met if x["step"] < m["step"]},
+                        "divergence": _jsonable_div(m)})
+        if div:
+            special = [k for k in ("_refused", "_exception", "_close_log") if k in div["diff"]]
+            own = ("C13" if special == ["_close_log"] else _owner_by_action(div["action"], b[div["step"]])) if special else \
+                rp.owner(div["signature"].replace("+other", ""), div["action"], rp.spec_view(b[div["step"]]), div["diff"])
+            rep.report(own, div["signature"],
+                       "replay diverges at step %d (%s): %s" % (div["step"], div["action"], _jsonable_div(div)["diff"]),
+                       {"kind": "walk", "constants": _jc(consts), "actions": acts[:div["step"] - 1],
+                        "repairs": {str(x["step"]): {"signature": x["signature"], "info": x["repair"]} for x in met},
+                        "divergence": _jsonable_div(div)})
+        elif not met:
+            clean += 1
+    ctx.traces_validated += clean
+    ctx.count("behaviours_replayed", len(behs))
+    ctx.count("behaviours_replayed_without_divergence", clean)
+    ctx.note("simulated_behaviours_replayed", {"constants": name(consts), "behaviours": len(behs),
+                                               "steps": sum(len(b) - 1 for b in behs)})
+    return len(behs)
+
+
 def _owner_by_action(act, post):
     if post["shutdown"]:
         return "C12"
@@ -348,9 +388,9 @@ def run(ctx, pid):
         if res is None:
             return rep.finish()
         witnesses(ctx, pid, K_MID3)
-        n = replay_graph(ctx, pid, K_SMALL, rep, max_walks=1800, label="graph")
-        n += replay_graph(ctx, pid, K_CAP, rep, max_walks=500, label="graph_capacity")
-        validate_recorded(ctx, pid, K_MID3, 200, rep)
+        n = replay_graph(ctx, pid, K_SMALL, rep, max_walks=1500, label="graph")
+        n += replay_graph(ctx, pid, K_CAP, rep, max_walks=400, label="graph_capacity")
+        validate_recorded(ctx, pid, K_MID3, 150, rep)
         ctx.note("constants", {"tlc": name(K_MID), "witnesses": name(K_MID3), "replay": [name(K_SMALL), name(K_CAP)],
                                "traces": name(K_MID3)})
     else:
@@ -362,11 +402,11 @@ def run(ctx, pid):
             return rep.finish()
         n = replay_graph(ctx, pid, K_SMALL3, rep, label="graph")
         n += replay_graph(ctx, pid, K_CAP, rep, label="graph_capacity")
-        n += replay_graph(ctx, pid, K_MID, rep, max_walks=12000, label="graph_3req")
+        n += replay_simulated(ctx, pid, K_BIG, rep, num=2500)
         validate_recorded(ctx, pid, K_MID3, 1500, rep)
         validate_recorded(ctx, pid, K_BIG, 1500, rep, max_events=80)
-        ctx.note("constants", {"tlc": [name(K_MID3), name(K_BIG)], "replay": [name(K_SMALL3), name(K_CAP), name(K_MID)],
-                               "traces": [name(K_MID3), name(K_BIG)]})
+        ctx.note("constants", {"tlc": [name(K_MID3), name(K_BIG)], "replay": [name(K_SMALL3), name(K_CAP)],
+                               "replay_sampled": name(K_BIG), "traces": [name(K_MID3), name(K_BIG)]})
     rep.finish()
     ctx.evaluations = n + ctx.extra.get("traces_recorded", 0)
     ctx.assumptions += [
